@@ -270,3 +270,69 @@ Print Assumptions settle_quiet_agrees.
 Print Assumptions refresh_quiet_agrees.
 Print Assumptions C02_direct_phi.
 Print Assumptions C02_multi_hop_phi.
+
+(* ---- the fair round of Net.v itself terminates (package J, Net_proofs29..36): from every reachable net `settle` — with its
+   own concrete fuel — ends quiet, and so does the refresh after it; hence C02_direct and C02_multi_hop hold with NO fairness
+   side condition left: the only hypotheses are that blocks put by the application hash to their CID, that asked CIDs are
+   well-formed and that the requester's wantlist is within the server's 1024 cap. *)
+From BS Require Import Net Net_proofs Net_proofs2 Net_proofs5 Net_proofs6 Net_proofs7 Net_proofs9 Net_proofs10 Net_props Net_props2
+  Net_proofs23 Net_proofs24 Net_proofs27 Net_proofs28 Net_proofs29 Net_proofs31 Net_proofs32 Net_proofs34 Net_proofs35 Net_proofs36 Server Server_inv Net_props3.
+From Coq Require Import ZArith Lia.
+Open Scope N_scope.
+
+Theorem settle_terminates :
+  forall (Sz : N) (Hh : hash_fn),
+  32 <= Sz ->
+  forall (n : nat) (ops : list nop),
+  Forall (nop_good Sz Hh) ops ->
+  Forall (nop_wf Sz) ops -> let s := fst (nrun Sz Hh (net_init n) ops) in quietb (fst (settle Sz Hh s)) = true.
+Proof. exact (@Net_props3.settle_terminates). Qed.
+
+Theorem refresh_terminates :
+  forall (Sz : N) (Hh : hash_fn),
+  32 <= Sz ->
+  forall (n : nat) (ops : list nop),
+  Forall (nop_good Sz Hh) ops ->
+  Forall (nop_wf Sz) ops ->
+  let s := fst (nrun Sz Hh (net_init n) ops) in
+  let r1 := settle Sz Hh s in quietb (fst r1) = true /\ quietb (fst (refresh Sz Hh (fst r1))) = true.
+Proof. exact (@Net_props3.refresh_terminates). Qed.
+
+Theorem C02_direct_unconditional :
+  forall (Sz : N) (Hh : hash_fn),
+  32 <= Sz ->
+  forall (i j : N) (q : qid) (c : cid) (n : nat) (ops : list nop),
+  Forall (nop_good Sz Hh) ops ->
+  Forall (nop_wf Sz) ops ->
+  let s := fst (nrun Sz Hh (net_init n) ops) in
+  live_query i q c s ->
+  Net.connected s i j = true ->
+  (exists (st : list (cid * bytes)) (d : bytes), store_of s j = Some st /\ store_get st c = SHit d) ->
+  let r1 := settle Sz Hh s in
+  let r2 := refresh Sz Hh (fst r1) in
+  (length (wl_i i (fst r1)) <= 1024)%nat -> answered i q (snd r1 ++ snd r2).
+Proof. exact (@Net_props3.C02_direct_unconditional). Qed.
+
+Theorem C02_multi_hop_unconditional :
+  forall (Sz : N) (Hh : hash_fn),
+  32 <= Sz ->
+  forall (i j k : N) (qi qj : qid) (c : cid) (n : nat) (ops : list nop),
+  Forall (nop_good Sz Hh) ops ->
+  Forall (nop_wf Sz) ops ->
+  let s := fst (nrun Sz Hh (net_init n) ops) in
+  live_query i qi c s ->
+  live_query j qj c s ->
+  Net.connected s i j = true ->
+  Net.connected s j k = true ->
+  (exists (st : list (cid * bytes)) (d : bytes), store_of s k = Some st /\ store_get st c = SHit d) ->
+  let r1 := settle Sz Hh s in
+  let r2 := refresh Sz Hh (fst r1) in
+  let r3 := refresh Sz Hh (fst r2) in
+  (length (wl_i j (fst r1)) <= 1024)%nat ->
+  (length (wl_i i (fst r2)) <= 1024)%nat -> answered i qi (snd r1 ++ snd r2 ++ snd r3).
+Proof. exact (@Net_props3.C02_multi_hop_unconditional). Qed.
+
+Print Assumptions settle_terminates.
+Print Assumptions refresh_terminates.
+Print Assumptions C02_direct_unconditional.
+Print Assumptions C02_multi_hop_unconditional.
